@@ -249,7 +249,7 @@ func (c *Ctx) runProducer(a *asyncInfo, ro *Roles, root *ssa.Function, policy co
 			}
 			cond, pol = u.X, !pol
 		}
-		if call, ok := cond.(*ssa.Call); ok && call.Common().StaticCallee() == ro.Enable {
+		if _, _, isGate := c.gateOf(cond, ro, s.Frame); isGate {
 			p := parsePstate(s.A)
 			if pol {
 				p.gate = "T"
